@@ -16,17 +16,17 @@ const (
 type valueRule int
 
 const (
-	ruleAny       valueRule = iota
-	ruleLen32               // byte string, length exactly 32
-	ruleLen8to32            // byte string, 8..32
-	ruleHash                // byte string, 32 | 48 | 64
-	ruleUEID                // 33 bytes, first byte 0x01
-	ruleLifecycle           // seven ranges
-	ruleEAN13or5            // EAN-13 or EAN-13+5
-	ruleEAN13p5             // EAN-13+5 only
-	ruleNonEmpty            // non-empty text
-	ruleProfile             // equals the canonical profile name
-	ruleComponents          // software component list
+	ruleAny        valueRule = iota
+	ruleLen32                // byte string, length exactly 32
+	ruleLen8to32             // byte string, 8..32
+	ruleHash                 // byte string, 32 | 48 | 64
+	ruleUEID                 // 33 bytes, first byte 0x01
+	ruleLifecycle            // seven ranges
+	ruleEAN13or5             // EAN-13 or EAN-13+5
+	ruleEAN13p5              // EAN-13+5 only
+	ruleNonEmpty             // non-empty text
+	ruleProfile              // equals the canonical profile name
+	ruleComponents           // software component list
 )
 
 type claimRow struct {
